@@ -46,6 +46,9 @@ type Channels struct {
 	progressCache        *progressCache
 	stateMachines        fsm.Group
 	migrateStateMachines func(context.Context) error
+	// stopCtx is cancelled when Stop is called
+	stopCtx context.Context
+	stop    context.CancelFunc
 }
 
 // ChannelEnvironment -- just a proxy for DTNetwork for now
@@ -63,6 +66,7 @@ func New(ds datastore.Batching,
 	selfPeer peer.ID) (*Channels, error) {
 
 	c := &Channels{notifier: notifier}
+	c.stopCtx, c.stop = context.WithCancel(context.Background())
 	c.blockIndexCache = newBlockIndexCache()
 	c.progressCache = newProgressCache()
 	channelMigrations, err := migrations.GetChannelStateMigrations(selfPeer)
@@ -91,6 +95,9 @@ func (c *Channels) Start(ctx context.Context) error {
 
 // Stop stops the channel statemachine
 func (c *Channels) Stop(ctx context.Context) error {
+	// release state queries that are waiting for a state machine: once the
+	// machines are stopped nothing would ever answer them
+	c.stop()
 	return c.stateMachines.Stop(ctx)
 }
 
@@ -168,6 +175,13 @@ func (c *Channels) InProgress() (map[datatransfer.ChannelID]datatransfer.Channel
 // GetByID searches for a channel in the slice of channels with id `chid`.
 // Returns datatransfer.EmptyChannelState if there is no channel with that id
 func (c *Channels) GetByID(ctx context.Context, chid datatransfer.ChannelID) (datatransfer.ChannelState, error) {
+	// A query that races with Stop can be accepted by a state machine that
+	// exits before answering it. Do not wait past Stop, whatever ctx is.
+	ctx, cancel := context.WithCancel(ctx)
+	defer cancel()
+	stopWatch := context.AfterFunc(c.stopCtx, cancel)
+	defer stopWatch()
+
 	var internalChannel internal.ChannelState
 	err := c.stateMachines.GetSync(ctx, chid, &internalChannel)
 	if err != nil {
